@@ -229,3 +229,89 @@ def h_launch_vs_cancel(sw1, sw2, ebp, code, cancel, fault, B=2):
             check(tgt != rps.CANCELED, 'CANCELED without a cancel request for '
                   'this task')
         check('t0' not in ex._tasks, 'task left behind in _tasks')
+
+
+# ------------------------------------------------------------------------------
+# NOOP executor: intake (work) vs. collector thread (_collect)
+#
+import radical.pilot.agent.executing.noop as m_noop               # noqa: E402
+
+NOOP_NAMES  = ['work', '_handle_task', '_collect']
+NOOP_SHARED = ['self._tasks', "task['deadline']", '.publish(', '.advance(',
+               'advance_tasks', 'to_finish', 'to_continue']
+NCORO, NCORO_INFO = C.make_coros(m_noop.NOOP, NOOP_NAMES, NOOP_SHARED)
+
+
+def mk_noop(collect_iters):
+    ex = object.__new__(m_noop.NOOP)
+    ex._uid, ex._log, ex._prof = 'agent_executing.0000', X.Null(), X.Null()
+    ex._tasks      = list()
+    ex._tasks_lock = C.CoopLock('_tasks_lock')
+    ex._terminate  = X.CountdownEvent(collect_iters)
+    ex._delay      = 1.0
+    ex.events      = []
+    def _publish(channel, msg, **kw):
+        if channel == rpc.AGENT_UNSCHEDULE_PUBSUB:
+            ex.events.append(('unschedule',
+                              [t['uid'] for t in X.ru.as_list(msg)]))
+    def _advance(things, state=None, publish=True, push=False, **kw):
+        for t in X.ru.as_list(things):
+            if state: t['state'] = state
+            ex.events.append(('advance', t['uid'], state, push,
+                              t.get('exit_code'), t.get('target_state'),
+                              'proc' in t))
+    ex.publish, ex.advance = _publish, _advance
+    m_noop.time = X.FakeTimeMod()
+    return ex
+
+
+def mk_ntask(uid, ok=True):
+    t = X.mk_xtask(uid)
+    t['description']['executable'] = '/bin/true' if ok else None
+    t['description']['arguments']  = []
+    return t
+
+
+@obligation(params={'sw1': (0, 30), 'sw2': (0, 30), 'bad': (0, 2),
+                    'n': (1, 2), 'pre': 'bool'},
+            partition={'quick': ('sw1', 16), 'thorough': ('sw1', 31)},
+            timeout={'quick': 300, 'thorough': 900},
+            funcs=['radical/pilot/agent/executing/noop.py:NOOP.' + n
+                   for n in NOOP_NAMES],
+            bounds='NOOP executor: a bulk of 1..2 tasks arrives while the '
+                   'collector thread runs (3 iterations, <= 2 pre-emptions); '
+                   'optionally one task is already being watched; task `bad` '
+                   '(2 = none) cannot be handled (no executable)',
+            stubs=['publish/advance -> recorders', 'time -> fake',
+                   'lock -> cooperative'])
+def h_noop(sw1, sw2, bad, n, pre):
+    """NOOP executor: every accepted task is handed on and released once"""
+    if sw2 and sw2 < sw1: return
+    sw = _switches(sw1, sw2, 30)
+    bad, n = conc(bad, 0, 2), conc(n, 1, 2)
+    ex = mk_noop(3)
+    tasks = [mk_ntask('t%d' % i, ok=(i != bad)) for i in range(n)]
+    uids  = [t['uid'] for t in tasks]
+    if pre:
+        tp = mk_ntask('tp')
+        C.run_sequential(NCORO['work'](ex, [tp]))
+        uids.append('tp')
+    sch = C.Coop([('main', NCORO['work'](ex, tasks)),
+                  ('collector', NCORO['_collect'](ex))], switch_at=sw)
+    sch.run()
+    # the collector keeps running
+    ex._terminate = X.CountdownEvent(2)
+    C.run_sequential(NCORO['_collect'](ex))
+    reach()
+    trace('events', ex.events, 'schedule', sch.log)
+    for uid in uids:
+        s = X.check_exactly_once(ex, uid)
+        if uid == 't%d' % bad:
+            check(s['final_adv'] == [rps.FAILED], 'unhandled task %s: %s',
+                  uid, s)
+        else:
+            check(len(s['handover_stageout']) == 1 and
+                  s['handover_stageout'][0][1] == rps.DONE,
+                  'task %s: %s', uid, s)
+    check(not ex._tasks, 'tasks left behind: %s',
+          [t['uid'] for t in ex._tasks])
